@@ -3,7 +3,7 @@
 import sys, os, re, json, shutil, glob
 for vf in sys.argv[1:]:
     for line in open(vf):
-        m = re.match(r'(/tmp/seed[345]?/out2?/(C\d+)/([a-n])) suite=(\w+) demo_with=(\w+) demo_without=(\w+) cmd=\[(.*)\]', line.strip())
+        m = re.match(r'(/tmp/seed[3456]?/out2?/(C\d+)/([a-q])) suite=(\w+) demo_with=(\w+) demo_without=(\w+) cmd=\[(.*)\]', line.strip())
         if not m:
             print("skip:", line.strip()); continue
         d, prop, var, suite, dw, dwo, cmd = m.groups()
